@@ -86,7 +86,8 @@
 
    STATEMENT CLAUSES -> INVARIANTS
      full core = exactly the cells generated under 120-degree rotation ............ OrbitClosure
-     each new assembly a copy of its source rotated into place ..................... CopiesRotatedIntoPlace
+     each new assembly a copy of its source rotated into place ..................... CopiesRotatedIntoPlace, DispIsRotation
+                                                                                      (displacement vector / coords() of the blocks)
      independent, uniquely named ................................................... UniqueNames (+ adapter: no shared
                                                                                       block/component/parameter objects)
      counts, mass of every nuclide, volume, volume-integrated totals x3 (centre once) TimesThree
@@ -542,6 +543,25 @@ LitRestoreKeepsEdges == act.br = "Restore" => Proj(Cur) = preConv
 
 (* -------------------------------------- observations printed for the harness -------------------------------------- *)
 RotOf(k) == IF k \in {1, 2} THEN k ELSE 0
+\* Every block of every original is built with the displacement D0 (cm).  A copy rotated by k*120 degrees carries the rotated
+\* vector  R(120k) D0,  with cos = SymC6(2k)/2 and sin = sqrt(3) * SymS6(2k)/2 (the tables pinned down by the ASSUMEs of SymLattice);
+\* each coordinate is the exact number  a + b*sqrt(3),  printed as <<ax, bx, ay, by>> (rationals).  Block.coords() of the copy is
+\* then the centre of its cell plus that vector: the rotated coords() of the source.
+D0 == << <<3, 10>>, <<-1, 5>> >>
+DispOf(k) == LET cc == RInt(SymC6(2 * RotOf(k)))  ss == RInt(SymS6(2 * RotOf(k)))  half == RFrac(1, 2) IN
+             << RMul(half, RMul(cc, D0[1])), RNeg(RMul(half, RMul(ss, D0[2]))),
+                RMul(half, RMul(cc, D0[2])), RMul(half, RMul(ss, D0[1])) >>
+DispT == [k \in 0..3 |-> DispOf(k)]           \* (constant-level table: evaluated once)
+\* ... and it IS that rotation: same length, and the angle from D0 to it is k*120 degrees counter-clockwise
+\* (rational and sqrt(3) parts of |d'|^2, d.d' and d x d' separately)
+Sq(r) == RMul(r, r)
+DispIsRotation == \A k \in 0..3 :
+    LET d == DispOf(k)  n2 == RAdd(Sq(D0[1]), Sq(D0[2]))
+        cc == RFrac(SymC6(2 * RotOf(k)), 2)  ss == RFrac(SymS6(2 * RotOf(k)), 2) IN
+    /\ RAdd(RAdd(Sq(d[1]), RMul(RInt(3), Sq(d[2]))), RAdd(Sq(d[3]), RMul(RInt(3), Sq(d[4])))) = n2            \* |d'|^2, rational part
+    /\ RAdd(RMul(d[1], d[2]), RMul(d[3], d[4])) = RZero                                                     \* |d'|^2, sqrt(3) part
+    /\ RAdd(RMul(D0[1], d[1]), RMul(D0[2], d[3])) = RMul(cc, n2) /\ RAdd(RMul(D0[1], d[2]), RMul(D0[2], d[4])) = RZero      \* d . d'
+    /\ RSub(RMul(D0[1], d[3]), RMul(D0[2], d[1])) = RZero /\ RSub(RMul(D0[1], d[4]), RMul(D0[2], d[2])) = RMul(ss, n2)      \* d x d'
 ObsT ==
     LET K  == Cur
         cs == SortedCells(Occ(K))
@@ -593,6 +613,7 @@ ObsT ==
         origNamesKept |-> \A cc \in Occ(K) : at[cc].k = 0 => at[cc].num = at[cc].o - 1,
         freshNames |-> \A cc \in Occ(K) : at[cc].k # 0 => at[cc].num >= NOrig /\ at[cc].num < nextNum]   \* copies: names never used before
 Obs == [d   |-> ObsT,
+        disp |-> LET cs == SortedCells(Occ(Cur)) IN [x \in 1..Len(cs) |-> DispT[at[cs[x]].k]],
         vol |-> VolCoef(Cur, sym),
         par |-> ParCoef(Cur),
         full |-> FullCoef(Cur, sym)]
